@@ -139,6 +139,9 @@ theorem partition_ok_iff (m : MatrixMeta) (hm : m.Inv) (rp cp : List Nat) :
     · simp [h1, h2]
   · simp [h1]
 
+/-- Non-vacuity of the hypothesis `m.Inv`: a 3×3 matrix. -/
+example : MatrixMeta.Inv ⟨9, 3, 3⟩ := ⟨rfl, by decide, by decide, by decide⟩
+
 /-- The `check_axis` quirk on a 3×3 matrix. -/
 example : partitionSpec ⟨9, 3, 3⟩ [2, 3, 3] [] =
     .ok (gridSpec ⟨9, 3, 3⟩ [2, 3, 3] []) ∧
@@ -263,7 +266,6 @@ theorem part_write_frame (m : MatrixMeta) (hm : m.Inv) (rp cp : List Nat)
   by_cases hkk : k = k'
   · subst hkk
     -- same part: same rectangle
-    have hrr : r.1 = r'.1 ∧ c.1 = c'.1 ∧ c.2 = c'.2 ∨ True := Or.inr trivial
     have hw' := hw
     rw [hget] at hw'
     have hr' := hr
